@@ -517,6 +517,10 @@ def impl(case):
     except BaseException as e:      # noqa: BLE001
         out['again'] = ['raised ' + type(e).__name__]
     try:
+        out['names'] = [str(x) for x in fsic.build_model(symbols).NAMES]
+    except BaseException as e:      # noqa: BLE001
+        out['names_exc'] = type(e).__name__
+    try:
         out['iso'] = _isolated(symbols, case.get('seed', 0))
     except BaseException as e:      # noqa: BLE001
         out['iso_exc'] = type(e).__name__
@@ -604,7 +608,11 @@ def oracle(case, obs):
     if obs.get('parse') != 'ok':
         if case['k'] == 'prog' and not flags:
             add('grammar-program-rejected', 'a program of the grammar was rejected with ' + str(obs.get('parse')))
+        elif 'variable-and-function' in flags and obs.get('parse') != 'SymbolError':
+            add('function-variable-clash', 'a name used both as variable and as function: rejected with %s, not SymbolError' % obs.get('parse'))
         return fails
+    if 'variable-and-function' in flags:
+        add('function-variable-clash', 'a name used both as variable and as function (no model can hold both) was accepted')
     if obs.get('graph') != 'ok':
         verb = [x.split('|') for x in obs['sym'].split(';') if x]
         if (obs['graph'] == 'ValueError' and case['k'] == 's'
@@ -645,6 +653,12 @@ def oracle(case, obs):
     for a, b in edges:
         if a not in nodes or b not in nodes:
             add('dangling-edge', 'edge %s -> %s has an endpoint that is not a node' % (a, b))
+    # every variable-like term of the graph is a series of the model built from the same symbols (finding #19, fixed by b45daa1)
+    if 'names' in obs:
+        for n in nodes:
+            m = re.fullmatch(r'([A-Za-z_][A-Za-z_0-9]*)\[.*\]', n, re.S)
+            if m and m.group(1) not in obs['names']:
+                add('edge-term-is-no-series-of-the-model', 'node %s of the graph: the model has no series %r (NAMES = %s)' % (n, m.group(1), obs['names'][:12]))
     # exact edge set against the syntax tree
     if case['k'] == 'prog':
         if {r['lhs'] for r in case['ref']} != {n for n, a in nodes.items() if a is not None}:
@@ -665,11 +679,7 @@ def oracle(case, obs):
         if 'skip' in ent:
             continue
         if 'exc' in ent:
-            if 'variable-and-function' in flags and ent['exc'] == 'AttributeError':
-                fails.append({'sig': 'C20|edge-term-is-no-series-of-the-model',
-                              'what': 'a name used both as variable and as function: the graph has the edge, the model has no such series '
-                                      '(evaluation raises AttributeError) — script ' + json.dumps(case['s'])[:200]})
-            elif case['k'] == 'prog':
+            if case['k'] == 'prog':
                 add('isolated-evaluation-raises', 'executing the equation of %s alone raised %s' % (lhs, ent['exc']))
             continue
         into = {a for a, b in edges if b == lhs}
